@@ -16,6 +16,13 @@ impl Decimal {
     #[verifier::external_body]
     pub fn one() -> (r: Decimal) ensures r.atomics == dec_one() { Decimal { atomics: 1_000_000_000_000_000_000 } }
     pub fn is_zero(&self) -> (r: bool) ensures r == (self.atomics == 0) { self.atomics == 0 }
+    pub fn atomics(&self) -> (r: Uint128) ensures r.u == self.atomics { Uint128 { u: self.atomics } }
+    pub fn new(value: Uint128) -> (r: Decimal) ensures r.atomics == value.u { Decimal { atomics: value.u } }
+    pub fn raw(value: u128) -> (r: Decimal) ensures r.atomics == value { Decimal { atomics: value } }
+    // floor / ceil to whole tokens
+    pub fn to_uint_floor(self) -> (r: Uint128) ensures r.u == self.atomics / 1_000_000_000_000_000_000 { Uint128 { u: self.atomics / 1_000_000_000_000_000_000 } }
+    #[verifier::external_body]
+    pub fn to_uint_ceil(self) -> (r: Uint128) ensures r.u == (self.atomics + 999_999_999_999_999_999) / 1_000_000_000_000_000_000 { Uint128 { u: 0 } }
     #[verifier::external_body]
     pub fn percent(x: u64) -> (r: Decimal) ensures r.atomics == x * 10_000_000_000_000_000 { Decimal { atomics: 0 } }
     // from_ratio(n, d): floor(n * 10^18 / d); panics for d == 0 (precondition) and on overflow (partial correctness)
@@ -90,7 +97,9 @@ impl core::ops::Sub<Decimal> for Decimal {
 }
 impl core::ops::AddAssign<Decimal> for Decimal {
     #[verifier::external_body]
-    fn add_assign(&mut self, o: Decimal) { }
+    fn add_assign(&mut self, o: Decimal)
+        ensures fits((old(self).atomics + o.atomics) as nat) ==> final(self).atomics == old(self).atomics + o.atomics
+    { }
 }
 impl vstd::std_specs::ops::AddAssignSpecImpl<Decimal> for Decimal {
     open spec fn obeys_add_assign_spec() -> bool { false }
@@ -108,7 +117,9 @@ impl vstd::std_specs::ops::SubAssignSpecImpl<Decimal> for Decimal {
 }
 impl core::ops::MulAssign<Decimal> for Decimal {
     #[verifier::external_body]
-    fn mul_assign(&mut self, o: Decimal) { }
+    fn mul_assign(&mut self, o: Decimal)
+        ensures fits(dmul(old(self).atomics as nat, o.atomics as nat)) ==> final(self).atomics == dmul(old(self).atomics as nat, o.atomics as nat)
+    { }
 }
 impl vstd::std_specs::ops::MulAssignSpecImpl<Decimal> for Decimal {
     open spec fn obeys_mul_assign_spec() -> bool { false }
@@ -141,6 +152,20 @@ impl Uint128 {
     pub fn mul_floor(self, d: Decimal) -> (r: Uint128)
         ensures fits(dmul(self.u as nat, d.atomics as nat)) ==> r.u == dmul(self.u as nat, d.atomics as nat)
     { self }
+    // ceil(self * atomics / 10^18)
+    #[verifier::external_body]
+    pub fn mul_ceil(self, d: Decimal) -> (r: Uint128)
+        ensures fits((self.u as nat * d.atomics as nat + dec_one() - 1) as nat / dec_one()) ==> r.u == (self.u as nat * d.atomics as nat + dec_one() - 1) as nat / dec_one()
+    { self }
+    // floor(self * n / d); panics for d == 0 and on overflow
+    #[verifier::external_body]
+    pub fn multiply_ratio<A: IntoU128, B: IntoU128>(&self, n: A, d: B) -> (r: Uint128)
+        requires d.as_nat() > 0
+        ensures fits(self.u as nat * n.as_nat() / d.as_nat()) ==> r.u == self.u as nat * n.as_nat() / d.as_nat()
+    { *self }
+    pub fn saturating_sub(self, o: Uint128) -> (r: Uint128)
+        ensures r.u == if self.u >= o.u { (self.u - o.u) as u128 } else { 0u128 }
+    { if self.u >= o.u { Uint128 { u: self.u - o.u } } else { Uint128 { u: 0 } } }
     pub fn checked_sub(self, o: Uint128) -> (r: Result<Uint128, OverflowError>)
         ensures match r { Ok(x) => self.u >= o.u && x.u == self.u - o.u, Err(_) => self.u < o.u }
     { if self.u >= o.u { Ok(Uint128 { u: self.u - o.u }) } else { Err(OverflowError { operation: OverflowOperation::Sub }) } }
@@ -187,3 +212,53 @@ impl PartialOrd for Timestamp {
 }
 
 pub struct Validator { pub address: String, pub commission: Decimal, pub max_commission: Decimal, pub max_change_rate: Decimal }
+
+// ---- Uint128 comparison / arithmetic operators (overflow panics: partial correctness; underflow is a precondition)
+impl vstd::std_specs::cmp::PartialEqSpecImpl for Uint128 {
+    open spec fn obeys_eq_spec() -> bool { true }
+    open spec fn eq_spec(&self, other: &Uint128) -> bool { self.u == other.u }
+}
+impl PartialEq for Uint128 { fn eq(&self, o: &Uint128) -> (r: bool) { self.u == o.u } }
+impl vstd::std_specs::cmp::PartialOrdSpecImpl for Uint128 {
+    open spec fn obeys_partial_cmp_spec() -> bool { true }
+    open spec fn partial_cmp_spec(&self, other: &Uint128) -> Option<core::cmp::Ordering> {
+        if self.u < other.u { Some(core::cmp::Ordering::Less) } else if self.u == other.u { Some(core::cmp::Ordering::Equal) } else { Some(core::cmp::Ordering::Greater) }
+    }
+}
+impl PartialOrd for Uint128 {
+    fn partial_cmp(&self, o: &Uint128) -> (r: Option<core::cmp::Ordering>) {
+        if self.u < o.u { Some(core::cmp::Ordering::Less) } else if self.u == o.u { Some(core::cmp::Ordering::Equal) } else { Some(core::cmp::Ordering::Greater) }
+    }
+}
+impl vstd::std_specs::ops::AddSpecImpl<Uint128> for Uint128 {
+    open spec fn obeys_add_spec() -> bool { false }
+    open spec fn add_req(self, rhs: Uint128) -> bool { true }
+    open spec fn add_spec(self, rhs: Uint128) -> Uint128 { arbitrary() }
+}
+impl core::ops::Add<Uint128> for Uint128 {
+    type Output = Uint128;
+    #[verifier::external_body]
+    fn add(self, o: Uint128) -> (r: Uint128)
+        ensures fits((self.u + o.u) as nat) ==> r.u == self.u + o.u
+    { self }
+}
+impl vstd::std_specs::ops::SubSpecImpl<Uint128> for Uint128 {
+    open spec fn obeys_sub_spec() -> bool { true }
+    open spec fn sub_req(self, rhs: Uint128) -> bool { self.u >= rhs.u }
+    open spec fn sub_spec(self, rhs: Uint128) -> Uint128 { Uint128 { u: (self.u - rhs.u) as u128 } }
+}
+impl core::ops::Sub<Uint128> for Uint128 {
+    type Output = Uint128;
+    fn sub(self, o: Uint128) -> (r: Uint128) { Uint128 { u: self.u - o.u } }
+}
+impl core::ops::AddAssign<Uint128> for Uint128 {
+    #[verifier::external_body]
+    fn add_assign(&mut self, o: Uint128)
+        ensures fits((old(self).u + o.u) as nat) ==> final(self).u == old(self).u + o.u
+    { }
+}
+impl vstd::std_specs::ops::AddAssignSpecImpl<Uint128> for Uint128 {
+    open spec fn obeys_add_assign_spec() -> bool { false }
+    open spec fn add_assign_req(&self, rhs: Uint128) -> bool { true }
+    open spec fn add_assign_spec(&self, rhs: Uint128) -> &Self { arbitrary() }
+}
